@@ -57,9 +57,11 @@ def palette_normalisation(model: Model, rr: RuleResult, only_v0: bool = False):
         rr.ok("PaintSolid: PaletteIndex from the opaque colour, Alpha carried by the paint")
     else:
         rr.bad(ps.ufo_fn, ps.ufo_fn.node, "PaintSolid look-up/alpha split disagrees with the opaque palette", construct=f"PaintSolid: {short(ps.ufo_keys.get('PaletteIndex'))} / {short(ps.ufo_keys.get('Alpha'))}")
-    cl = model.func("paint", "_ufoColorLine")
-    t = " ".join(norm(n) for n in walk_body(cl) if isinstance(n, ast.Dict))
-    if "'PaletteIndex': stop.color.opaque().index_from(colors)" in t and "'Alpha': stop.color.alpha" in t:
+    from ..paintmodel import color_line
+    cl, _keys, sv, sk = color_line(model)
+    if sk is None:
+        rr.bad_shape(cl, cl.node, "gradient stop records are not read (ColorStop is not a list of dict records over the gradient's stops)", construct="_ufoColorLine: PaletteIndex/Alpha")
+    elif sk.get("PaletteIndex") == f"{sv}.color.opaque().index_from(colors)" and sk.get("Alpha") == f"{sv}.color.alpha":
         rr.ok("gradient stops: PaletteIndex from the opaque colour, Alpha carried by the stop")
     else:
         rr.bad(cl, cl.node, "gradient stop look-up/alpha split disagrees with the opaque palette", construct="_ufoColorLine: PaletteIndex/Alpha")
@@ -107,19 +109,17 @@ def r15b(model: Model, rr: RuleResult):
     else:
         rr.bad(fi, gen, f"palette filter is {conds}", construct=f"palette filter {conds}")
     ifn = model.func("colors", "Color.index_from")
-    cfg = cfg_of(ifn)
-    r = [st for st in walk_body(ifn) if isinstance(st, ast.Return)]
-    ffff = [st for st in r if norm(st.value) in ("65535", "0xFFFF")]
-    ok = False
-    if ffff:
-        facts = [(norm(e), pol) for e, pol in guard_facts(cfg, cfg.node_for(ffff[0]))]
-        ok = facts == [("self.is_current_color()", True)]
-    if ok:
+    from ..guards import return_cases
+    cases = return_cases(ifn)
+    ffff = [(v, f) for v, f in cases if v is not None and norm(v) in ("65535", "0xFFFF")]
+    if ffff and all(f == [("self.is_current_color()", True)] for v, f in ffff):
         rr.ok("index_from returns 0xFFFF exactly when is_current_color()")
+    elif ffff and any(not f for v, f in ffff):
+        rr.bad(ifn, ifn.node, "index_from maps every colour to 0xFFFF", construct="Color.index_from: foreground")
     else:
         rr.bad_shape(ifn, ifn.node, "index_from does not map the foreground colour (and only it) to 0xFFFF", construct="Color.index_from: foreground")
-    other = [st for st in r if st not in ffff]
-    if other and norm(other[0].value) == "palette.index(self)":
+    other = [(v, f) for v, f in cases if (v, f) not in ffff]
+    if other and all(v is not None and norm(v) == "palette.index(self)" for v, f in other) and all(f in ([], [("self.is_current_color()", False)]) for v, f in other):
         rr.ok("every other colour resolves through palette.index(self) (raises when absent)")
     else:
         rr.bad_shape(ifn, ifn.node, "non-foreground colours do not resolve through palette.index(self)", construct="Color.index_from: lookup")
@@ -230,14 +230,13 @@ def r15c(model: Model, rr: RuleResult):
 def r15d(model: Model, rr: RuleResult):
     fi = model.func("colors", "Color.opaque")
     cls_fields = [f for f, _, _ in model.mod("colors").cls("Color").fields]
-    rets = [st for st in walk_body(fi) if isinstance(st, ast.Return) and st.value is not None]
-    if not rets:
+    from ..guards import return_cases
+    cases = [(v, f) for v, f in return_cases(fi) if v is not None]
+    if not cases:
         raise AnalysisError("Color.opaque: no return")
-    for st in rets:
-        v = st.value
+    for v, facts in cases:
+        st = v
         if isinstance(v, ast.Name) and v.id == "self":
-            cfg = cfg_of(fi)
-            facts = [(norm(e), pol) for e, pol in guard_facts(cfg, cfg.node_for(st))]
             if any(pol and t.replace(" ", "") in ("self.alpha==1.0", "1.0==self.alpha", "self.alpha==1", "self.alpha>=1.0") for t, pol in facts):
                 rr.ok("opaque(): returns self when alpha is already 1.0")
             else:
